@@ -25,7 +25,7 @@ def gen_cases(ctx):
     cid = 0
     thorough = ctx.tier == "thorough"
     for kind in ddgen.KINDS_BOOL:
-        orders = ddgen.PERMS3 if thorough else [rng.choice(ddgen.PERMS3)]
+        orders = ddgen.PERMS3 if thorough else [rng.choice(ddgen.PERMS3[1:])]
         for order in orders:
             cases.append(ddgen.case_unary_and_consts(f"u{cid}", kind, order)); cid += 1
             for op in ddgen.BIN_OPS:
